@@ -61,7 +61,7 @@ var (
 type Probe struct {
 	Mac   int    `json:"mac"`
 	Fam   string `json:"fam"`   // "4" | "6" | "arp"
-	Src   string `json:"src"`   // "a1" | "a2" | "near" | "rev" | "in2" | "out"
+	Src   string `json:"src"`   // "a1" | "a2" | "near" | "rev" | "in2" | "out" | "zero"
 	Trunc bool   `json:"trunc"` // IP header cut short
 	// abstract facts about the source address (the trusted, byte-level part of the harness)
 	Addr  int   `json:"addr"`  // index of the bound-address constant it equals (0 = none)
@@ -80,6 +80,8 @@ func srcV4(kind string) net.IP {
 		return net.IPv4(2, 0, 1, 10).To4()
 	case "in2":
 		return net.IPv4(10, 2, 5, 5).To4()
+	case "zero": // the value an address field has when nothing was ever bound
+		return net.IPv4(0, 0, 0, 0).To4()
 	}
 	return net.IPv4(172, 16, 0, 9).To4()
 }
@@ -97,6 +99,8 @@ func srcV6(kind string) net.IP {
 			ip[i] = v6[1][15-i]
 		}
 		return ip
+	case "zero":
+		return net.ParseIP("::")
 	}
 	return net.ParseIP("2001:db8:ffff::9")
 }
@@ -104,7 +108,7 @@ func srcV6(kind string) net.IP {
 func probes(nmacs int) []Probe {
 	var out []Probe
 	for m := 1; m <= nmacs+1; m++ { // one MAC beyond the managed ones: never has a binding
-		for _, s := range []string{"a1", "a2", "near", "rev", "in2", "out"} {
+		for _, s := range []string{"a1", "a2", "near", "rev", "in2", "out", "zero"} {
 			p := Probe{Mac: m, Fam: "4", Src: s, InRng: []int{}}
 			ip := srcV4(s)
 			for i := 1; i < len(v4); i++ {
@@ -120,7 +124,7 @@ func probes(nmacs int) []Probe {
 			}
 			out = append(out, p)
 		}
-		for _, s := range []string{"a1", "a2", "near", "rev", "out"} {
+		for _, s := range []string{"a1", "a2", "near", "rev", "out", "zero"} {
 			p := Probe{Mac: m, Fam: "6", Src: s, InRng: []int{}}
 			ip := srcV6(s)
 			for i := 1; i < len(v6); i++ {
@@ -255,6 +259,11 @@ func (in *inst) Apply(ev core.Event) map[string]any {
 		err = in.mgr.RemoveBinding(macOf(mc))
 	case "RANGE":
 		_, n, _ := net.ParseCIDR(ranges[a])
+		if a == 2 {
+			// the same network as a pool configured by address and prefix length yields it: the address in its 16-byte form
+			ones, _ := n.Mask.Size()
+			n = &net.IPNet{IP: net.ParseIP(n.IP.String()), Mask: net.CIDRMask(ones, 32)}
+		}
 		err = in.mgr.AddAllowedRange(n)
 	default:
 		panic("unknown op " + op)
